@@ -600,6 +600,12 @@ def attributeString (maxDigits : Nat) (f : FmtCfg) (items : Items) : Res PStr :=
   (formatAttrs maxDigits f (fmtAttributes f.emptyBool items)).bind fun l =>
     .ok (if l.isEmpty then [] else 32 :: joinSp l)
 
+/-- the attribute string when a formatter's own `attributes()` (the documented extension point, e.g. the
+    documentation's `UnsortedAttributes`) hands back the pairs `sel` — any order, any selection: `_format_tag` still
+    renders each pair itself, so list and tuple values are joined there -/
+def attributeStringSel (maxDigits : Nat) (f : FmtCfg) (sel : Items) : Res PStr :=
+  (formatAttrs maxDigits f sel).bind fun l => .ok (if l.isEmpty then [] else 32 :: joinSp l)
+
 /-! ### ASCII lower-casing (what `str.lower` does on ASCII names; proved equal to `pyLower` there) -/
 
 def asciiLowerCp (c : Nat) : Nat := if 65 ≤ c ∧ c ≤ 90 then c + 32 else c
@@ -643,6 +649,17 @@ def mkBuilder (classDefault : CdataMap) (isXml : Bool) (mva : MvaArg) (dictCls :
     dictCls := match dictCls with | some c => c | Option.none => .plain
     listCls := match listCls with | some c => c | Option.none => 1
     isXml := isXml }
+
+/-- the two routes of the option (`HTMLParserTreeBuilder.__init__`, _htmlparser.py:376-386): the builder keyword
+    `on_duplicate_attribute=` (`kw`, `none` = keyword not passed) and `parser_kwargs={"on_duplicate_attribute": …}` (`pk`).
+    `parser_kwargs.update(extra_parser_kwargs)`: a keyword that was passed — even `None` — wins; otherwise the entry of
+    `parser_kwargs` reaches `BeautifulSoupHTMLParser.__init__`, whose own default is `REPLACE`. -/
+def effectiveOnDup (kw pk : Option OnDupArg) : OnDupArg :=
+  match kw with
+  | some a => a
+  | Option.none => match pk with
+    | some a => a
+    | Option.none => .absent
 
 def hasDupKey : List PStr → Bool
   | [] => false
